@@ -340,7 +340,7 @@ PROPS["C16"] = {
             "the enclosing syntax occurs inside a key, operator argument or action value",
     "essential": {"all": ["delimiter-in-key", "pipe-in-regex-key", "delimiter-in-operator-argument", "delimiter-in-action-value", "escaped-quote-in-action-value",
                           "chain", "line-continuation", "split-across-included-files", "near-miss:del-quote", "near-miss:dup-open-quote", "near-miss:del-pipe",
-                          "near-miss:dup-pipe", "near-miss:dup-comma", "near-miss:trailing-comma", "near-miss:del-id-colon", "near-miss:del-blank",
+                          "near-miss:dup-pipe", "near-miss:dup-comma", "near-miss:trailing-comma", "near-miss:del-id-colon", "near-miss:del-blank", "near-miss:del-regex-close-slash",
                           "line-longer-than-64k", "text-ends-with-continuation", "quoted-key-same-rule", "nested-includes-in-different-directories"]},
     "assumptions": COMMON_ASSUME + [
         "the domain is what the grammar can carry: keys without blank, '|' and single quote; operator arguments without a backslash directly before a double quote or at the end, no leading/trailing blank, no line break; action values in which every single quote is escaped",
